@@ -71,12 +71,29 @@ func VerifC09Loader() {
 	for _, k := range flagSeq {
 		o.Patches = append(o.Patches, c09Paths[k])
 	}
+	c09Unreadable = map[*os.File]bool{}
+	listIsDir := false
 	if len(listSeq) > 0 {
 		add("list.txt", c09ListText(listSeq, ""))
 		o.PatchesFile = "list.txt"
+		if nd.Bool("listIsDir") {
+			// -P names something that opens but cannot be read (a directory)
+			listIsDir = true
+			c09Unreadable[c09Files["list.txt"]] = true
+		}
 	}
 	progs, err := loadPatches(token.NewFileSet(), o, &c09Reader{})
 	want, failing := c09Expect(flagSeq, listSeq)
+	if listIsDir {
+		if _, f := c09Expect(flagSeq, nil); f == "" {
+			nd.Assert(err != nil, "the patches list cannot be read but loading succeeded (its patches were silently not applied)")
+			if err != nil {
+				nd.Assert(strings.Contains(err.Error(), "list.txt"), "the error does not name the patches list that cannot be read")
+			}
+			nd.Reach("failed")
+			return
+		}
+	}
 	if failing != "" {
 		nd.Assert(err != nil, "a named patch ("+failing+") cannot be loaded but loading succeeded")
 		if err != nil {
@@ -116,13 +133,29 @@ func ReplayC09Loader() {
 	for _, k := range flagSeq {
 		o.Patches = append(o.Patches, filepath.Join(dir, c09Paths[k]))
 	}
+	listIsDir := false
 	if len(listSeq) > 0 {
 		lf := filepath.Join(dir, "list.txt")
-		os.WriteFile(lf, []byte(c09ListText(listSeq, dir+"/")), 0o644)
+		if nd.Bool("listIsDir") {
+			listIsDir = true
+			os.Mkdir(lf, 0o755)
+		} else {
+			os.WriteFile(lf, []byte(c09ListText(listSeq, dir+"/")), 0o644)
+		}
 		o.PatchesFile = lf
 	}
 	progs, err := loadPatches(token.NewFileSet(), o, strings.NewReader(""))
 	want, failing := c09Expect(flagSeq, listSeq)
+	if listIsDir {
+		if _, f := c09Expect(flagSeq, nil); f == "" {
+			if err == nil {
+				nd.Fail("the patches list cannot be read but loading succeeded (its patches were silently not applied)")
+			} else if !strings.Contains(err.Error(), "list.txt") {
+				nd.Fail("the error does not name the patches list that cannot be read")
+			}
+			return
+		}
+	}
 	if failing != "" {
 		if err == nil {
 			nd.Fail("a named patch (" + failing + ") cannot be loaded but loading succeeded")
